@@ -39,12 +39,18 @@ CONSTANTS
   Scrs,        \* SpecStep: subset of BOOLEAN  (include_screening)
   Dyns,        \* SpecStep: subset of BOOLEAN  (time-dependent applied potential)
   Vs,          \* SpecStep: subset of {"zero", "nonzero", "none"} (terminal_psi class)
+  Seeds,       \* SpecStep: subset of {"configured", "other"}: the initial state (psi_init, or a seed_solution whose
+               \* terminal values are / are not the configured terminal_psi)
   MaxSteps, MaxIter, AMax, IMax,
   \* ---- mechanism switches -------------------------------------------------
   MTrigger,    \* "prev_close": refresh iff not allclose(A_now, A_previous_step)  [pinned code]
                \* "exact"     : refresh iff A_now # A_previous_step              [candidate repair]
-  MReimpose,   \* TRUE: a nonzero terminal value is re-imposed after the Euler step [repair]; FALSE [pinned code]
-  MReimposeOnRetry, \* TRUE [repair]: ... after EVERY accepted Euler step; FALSE: mutant (only when the first
+  MReimpose,   \* what is written onto the terminal sites after the Euler step:
+               \*   "never"            identity row only [pinned code]
+               \*   "nonzero"          the configured value, when it is nonzero (`if options.terminal_psi`)
+               \*   "configured"       the configured value, whenever one is configured (`is not None`)
+               \*   "incoming_nonzero" mutant: the values the step came in with (configured nonzero only)
+  MReimposeOnRetry, \* TRUE: ... after EVERY accepted Euler step; FALSE: mutant (only when the first
                \* evaluation of |psi|^2 succeeded; a step that was retried with a smaller dt is not re-pinned)
   MMask,       \* TRUE [code]: refresh rewrites free rows only; FALSE: mutant (design canary)
   MBothHalves, \* TRUE [code]: both the U and the conj(U) entries are rewritten; FALSE: mutant
@@ -148,7 +154,7 @@ IsIdentityRow(m, L, i) == \A j \in SitesOf(m) : L[i, j] = (IF i = j THEN <<m.are
 
 -----------------------------------------------------------------------------
 VARIABLES
-  cfg,       \* [inst, mode, scr, dyn, v]
+  cfg,       \* [inst, mode, scr, dyn, v, seed]
   built,     \* psi_gradient is not None
   lap, grad, \* the matrices currently held (scaled, dense)
   freeRows,  \* laplacian_free_rows[: 2 NE] as stored by the first build
@@ -161,7 +167,8 @@ VARIABLES
   curA,      \* applied potential of this step (integer level)
   prevA,     \* self.current_A_applied: the value seen by the PREVIOUS step
   ind,       \* identity of the induced potential A_induced
-  tv,        \* value class on terminal sites: "eq" (= configured), "drift", "free" (nothing configured)
+  tv,        \* value class on terminal sites: "eq" (= configured), "drift", "free" (nothing configured),
+             \* "seed" (initial state only: the seed's values, different from the configured one)
   drifted    \* history: tv was "drift" at some step (what the saved frames show)
 
 opsvars == <<built, lap, grad, freeRows, linkQ, firstQ, calls>>
@@ -209,7 +216,7 @@ LapHermitianOnFreeBlock ==      \* sanity of the transcription: area-weighted fr
 
 -----------------------------------------------------------------------------
 (* SpecOps: arbitrary sequences of vector potentials *)
-Cfgs == {c \in [inst : Insts, mode : Modes, scr : Scrs, dyn : Dyns, v : Vs] :
+Cfgs == {c \in [inst : Insts, mode : Modes, scr : Scrs, dyn : Dyns, v : Vs, seed : Seeds] :
            /\ (c.v = "none") = (c.mode = "disabled")
            /\ (c.mode = "none") => c.v = "zero"}
 
@@ -218,7 +225,7 @@ InitCommon ==
   /\ calls = 0 /\ hist = <<>>
   /\ step = 0 /\ s = 0 /\ curA = 0 /\ prevA = 0 /\ ind = 0 /\ tv = "unset" /\ drifted = FALSE
 
-InitOps == /\ cfg \in [inst : Insts, mode : Modes, scr : {FALSE}, dyn : {FALSE}, v : {"zero"}]
+InitOps == /\ cfg \in [inst : Insts, mode : Modes, scr : {FALSE}, dyn : {FALSE}, v : {"zero"}, seed : {"configured"}]
            /\ InitCommon /\ pc = "ops"
 
 OpsCall(k) == /\ pc = "ops" /\ calls < MaxCalls
@@ -237,11 +244,13 @@ Close(a, b) == Abs(a - b) <= 1        \* chain: consecutive levels are close (al
 
 InitStep == /\ cfg \in Cfgs /\ InitCommon /\ pc = "ctor"
 
-\* TDGLSolver.__init__: operators built for A_applied(t = 0); psi_init[terminals] = terminal_psi
+\* TDGLSolver.__init__: operators built for A_applied(t = 0); the initial state is psi_init
+\* (psi_init[terminals] = terminal_psi) or the seed_solution, whose terminal values are an environment choice
 Ctor ==
   /\ pc = "ctor"
   /\ Build(QOfPot(M, 0, 0))
-  /\ tv' = IF cfg.v = "none" THEN "free" ELSE "eq"
+  /\ tv' = IF cfg.v = "none" THEN "free"
+           ELSE IF cfg.seed = "configured" \/ FixedSites = {} THEN "eq" ELSE "seed"
   /\ pc' = "idle"
   /\ UNCHANGED <<cfg, hist, step, s, curA, prevA, ind, drifted>>
 
@@ -293,9 +302,11 @@ PinnedRowsAreIdentity == \A i \in FixedSites : IsIdentityRow(M, lap, i)
 \* (adaptive_euler_step); an environment choice.  The re-imposition concerns nonzero values only (0 is kept by
 \* the identity row, as in the code: `if options.terminal_psi and len(fixed_sites)`).
 EulerValue(retried) ==
+  LET path == ~retried \/ MReimposeOnRetry IN
   IF cfg.v = "none" THEN "free"
   ELSE IF FixedSites = {} THEN "eq"
-  ELSE IF cfg.v = "nonzero" /\ MReimpose /\ (~retried \/ MReimposeOnRetry) THEN "eq"
+  ELSE IF path /\ (MReimpose = "configured" \/ (MReimpose = "nonzero" /\ cfg.v = "nonzero")) THEN "eq"
+  ELSE IF path /\ MReimpose = "incoming_nonzero" /\ cfg.v = "nonzero" THEN (IF tv = "eq" THEN "eq" ELSE "drift")
   ELSE IF tv = "eq" /\ cfg.v = "zero" /\ PinnedRowsAreIdentity THEN "eq"
   ELSE "drift"
 
@@ -339,8 +350,10 @@ OpsFresh == /\ linkQ = LatestQ
             /\ grad = BuildGrad(M, LatestQ)
 \* C10: no Euler step ever runs with stale or partially updated operators
 OperatorsMatchLatestA == (pc = "euler") => OpsFresh
-\* C06: on every terminal site the order parameter equals the configured value at every step
-PinnedSitesStayPinned == (cfg.v # "none" /\ tv # "unset") => tv = "eq"
+\* C06: on every terminal site the order parameter equals the CONFIGURED value at every step, for every initial
+\* state.  Steps are counted from the first update: the state before it (frame 0 of a seeded run) is the seed's,
+\* tv = "seed", and no Euler step ever produces "seed" again.
+PinnedSitesStayPinned == (cfg.v # "none" /\ tv # "unset") => (tv = "eq" \/ (tv = "seed" /\ pc \in {"ctor", "idle", "field", "trigger", "loop", "euler"} /\ step = 0 /\ s = 0))
 \* C06: terminal value unset => nothing is pinned
 UnsetMeansFree == (cfg.v = "none" /\ built) => (tv = "free" /\ \A i \in SitesOf(M) : ~IsIdentityRow(M, lap, i))
 NoScreeningNoInduced == ~cfg.scr => ind = 0
@@ -349,7 +362,7 @@ TypeOK ==
   /\ cfg.inst \in Insts /\ cfg.mode \in {"none", "terminals", "disabled"}
   /\ built \in BOOLEAN /\ calls \in Nat
   /\ pc \in {"ops", "ctor", "idle", "field", "trigger", "loop", "euler", "induced", "finish", "end"}
-  /\ tv \in {"unset", "eq", "drift", "free"}
+  /\ tv \in {"unset", "eq", "drift", "free", "seed"}
   /\ built => /\ DOMAIN lap = SitesOf(M) \X SitesOf(M)
               /\ DOMAIN grad = EdgesOf(M) \X SitesOf(M)
 
